@@ -302,8 +302,21 @@ def frame_obligations(rep):
             if isinstance(node, ast.Assign) and isinstance(node.value, ast.Call) and len(node.targets) == 1 and isinstance(node.targets[0], ast.Name):
                 local_fresh.add(node.targets[0].id)          # bound to the result of a call (fresh object or SQLAlchemy element)
         for node in ast.walk(fn):
-            targets = node.targets if isinstance(node, ast.Assign) else ([node.target] if isinstance(node, ast.AugAssign) else [])
-            for t in targets:
+            targets = node.targets if isinstance(node, (ast.Assign, ast.Delete)) else ([node.target] if isinstance(node, (ast.AugAssign, ast.AnnAssign, ast.For)) else [])
+            if isinstance(node, ast.Call) and isinstance(node.func, ast.Name) and node.func.id in ('setattr', 'delattr') and node.args:
+                # setattr(obj, name, value): a store on obj
+                targets = [ast.Attribute(value=node.args[0], attr='<setattr>', ctx=ast.Store())]
+            flat = []
+            stack_ = list(targets)
+            while stack_:
+                x_ = stack_.pop()
+                if isinstance(x_, (ast.Tuple, ast.List)):
+                    stack_ += list(x_.elts)
+                elif isinstance(x_, ast.Starred):
+                    stack_.append(x_.value)
+                else:
+                    flat.append(x_)
+            for t in flat:
                 base = t
                 while isinstance(base, (ast.Attribute, ast.Subscript)):
                     base = base.value
@@ -315,16 +328,36 @@ def frame_obligations(rep):
                     recv = t.value if isinstance(t, ast.Attribute) else t.value
                     if isinstance(t, ast.Subscript) and isinstance(base, ast.Name) and _is_local_container(fn, base.id):
                         continue
-                    offenders.append((fn.name, node.lineno, ast.get_source_segment(src, node)))
+                    offenders.append((fn.name, node.lineno, (ast.get_source_segment(src, node) or ast.unparse(node)) if len(flat) == 1 else ast.unparse(t) + ' = ...'))
     if offenders:
+        seen_ids = set()
         for fname, line, text in offenders:
             oid = f'C17.frame.{fname}.{text.split("=")[0].strip().replace(" ", "")}'
+            if oid in seen_ids:
+                continue          # the same slot stored at several sites of one function: one obligation
+            seen_ids.add(oid)
             rep.failed(oid, 'frames', f'{fname} (line {line}) stores into an object it did not create: `{text}`', function=f'{RENDER}:SqlalchemyRender.{fname}',
-                       clause='the renderer writes only its own objects', replay=replay_render('create table t (a serial, b int)', expect_mutation=True))
+                       clause='the renderer writes only its own objects', replay=_frame_replay(fname))
     else:
         rep.proved('C17.frame', 'frames', f'{n} attribute/subscript stores, all on self or on objects created in the same function', function=RENDER,
                    clause='the renderer writes only its own objects (input tree untouched)')
     rep.census['stores_examined'] = n
+
+
+FRAME_WITNESS = {
+    'prepare_create_table': ['create table t (a serial, b int)'],
+    'prepare_union': ['SELECT a FROM pg.public.t1 UNION SELECT a FROM pg.public.t2 ORDER BY a DESC LIMIT 10', 'SELECT a FROM t1 UNION SELECT a FROM t2 ORDER BY a LIMIT 3'],
+    'prepare_select': ['SELECT a FROM pg.public.t1 ORDER BY a LIMIT 1', 'SELECT a, count(b, c) FROM t GROUP BY a'],
+}
+
+
+def _frame_replay(fname):
+    for sql in FRAME_WITNESS.get(fname, []):
+        for fb in (True, False):
+            r = replay_render(sql, 'postgresql', fb, expect_mutation=True)
+            if r.get('fires'):
+                return r
+    return None
 
 
 def _is_local_container(fn, name):
